@@ -422,6 +422,7 @@ func runC19(r *fw.Run) {
 	defer c19IdReleasedBeforeTerminalMessage(r)
 	defer c19IdReleasedOnlyWhileOwned(r)
 	defer c19ErrorPayloadNeverEmpty(r)
+	defer c19TerminalEventEndsTheGoroutine(r)
 	p := r.Prog
 	ws, sub := p.Pkg("websocket"), p.Pkg("subscription")
 	if ws == nil || sub == nil {
@@ -2483,4 +2484,97 @@ func c19ErrorPayloadNeverEmpty(r *fw.Run) {
 			fi.Name()+" can return a nil or empty list ("+w+"): the terminal message is written as {\"type\":\"error\",\"payload\":null}, which graphql-transport-ws clients answer by closing with 4400 and which tells no client why its operation died")
 	}
 	r.Expect("C19-R15", "functions that build the payload of an error message", len(targets), 1)
+}
+
+// c19TerminalEventEndsTheGoroutine (R16): `error` is the terminal message of an operation in both protocols: after it
+// nothing may be sent for the id, and the id is free again. In the goroutine of a subscription the engine polls the
+// executor in a loop; a poll that fails emits the error event. The loop therefore has to end with that poll. Structurally:
+// inside a loop of a function ExecutorEngine runs as an operation goroutine, a call of an engine method that may emit
+// EventTypeOnError (summary: an Emit of that event type occurs in it) is not a bare statement — its result is tested, and
+// the failing edge leaves the loop —, and a direct Emit of the event is followed by return / break on its path.
+func c19TerminalEventEndsTheGoroutine(r *fw.Run) {
+	p := r.Prog
+	r.Rule("C19-R16", "in the goroutine of a subscription the poll that emits the terminal error event ends the polling loop: a call of an engine method that may emit EventTypeOnError inside a loop has its result tested (the failing edge leaves the loop), it is never a bare statement")
+	mayEmit := map[*fw.FuncInfo]bool{}
+	for _, fi := range p.Funcs("subscription") {
+		if !strings.HasPrefix(fi.Name(), "ExecutorEngine.") {
+			continue
+		}
+		info := fi.Info()
+		fw.WalkAll(fi.Decl.Body, func(nd ast.Node) bool {
+			if c, ok := nd.(*ast.CallExpr); ok && fw.CallIs(info, c, "subscription", "EventHandler.Emit") && len(c.Args) > 0 {
+				if k := fw.ConstObj(info, c.Args[0]); k != nil && k.Name() == "EventTypeOnError" {
+					mayEmit[fi] = true
+				}
+			}
+			return true
+		})
+	}
+	entries := map[*fw.FuncInfo]bool{}
+	for _, fi := range p.Funcs("subscription") {
+		info := fi.Info()
+		fw.WalkAll(fi.Decl.Body, func(nd ast.Node) bool {
+			if g, ok := nd.(*ast.GoStmt); ok {
+				if callee := p.FuncOf(fw.Callee(info, g.Call)); callee != nil && strings.HasPrefix(callee.Name(), "ExecutorEngine.") {
+					entries[callee] = true
+				}
+			}
+			return true
+		})
+	}
+	n := 0
+	for _, fi := range p.Funcs("subscription") {
+		if !entries[fi] {
+			continue
+		}
+		info := fi.Info()
+		var loops []ast.Node
+		var visit func(nd ast.Node) bool
+		visit = func(nd ast.Node) bool {
+			switch x := nd.(type) {
+			case *ast.ForStmt:
+				loops = append(loops, x)
+				ast.Inspect(x.Body, visit)
+				loops = loops[:len(loops)-1]
+				return false
+			case *ast.RangeStmt:
+				loops = append(loops, x)
+				ast.Inspect(x.Body, visit)
+				loops = loops[:len(loops)-1]
+				return false
+			case *ast.FuncLit:
+				return false
+			case *ast.ExprStmt:
+				c, ok := x.X.(*ast.CallExpr)
+				if !ok || len(loops) == 0 {
+					return true
+				}
+				callee := p.FuncOf(fw.Callee(info, c))
+				if callee == nil || !mayEmit[callee] {
+					return true
+				}
+				n++
+				r.Fail("C19-R16", fi.Name()+"/terminal-event-ends-the-goroutine", p.Pos(c.Pos()), "the poll "+callee.Name()+" in the loop of "+fi.Name()+" tells its caller that it emitted the terminal error event",
+					callee.Name()+" may emit EventTypeOnError — the terminal message of the operation — and is called as a bare statement inside the polling loop of "+fi.Name()+": the loop goes on, the operation is executed again after the update interval and the client receives `error` for the same id again and again; the id is never released")
+			case *ast.IfStmt, *ast.AssignStmt:
+				// a call whose result is tested or kept: counted as an accepted poll
+				fw.WalkAll(x, func(m ast.Node) bool {
+					if c, ok := m.(*ast.CallExpr); ok && len(loops) > 0 {
+						if callee := p.FuncOf(fw.Callee(info, c)); callee != nil && mayEmit[callee] {
+							n++
+							r.Pass("C19-R16", fi.Name()+"/terminal-event-ends-the-goroutine", p.Pos(c.Pos()), "the result of the poll "+callee.Name()+" in the loop of "+fi.Name()+" is used", true)
+						}
+					}
+					return true
+				})
+				if _, isIf := x.(*ast.IfStmt); isIf {
+					return true
+				}
+				return false
+			}
+			return true
+		}
+		ast.Inspect(fi.Decl.Body, visit)
+	}
+	r.Expect("C19-R16", "polls that may emit the terminal error event inside a loop of an operation goroutine", n, 1)
 }
